@@ -3,9 +3,9 @@ import Dtr.Model.StmtIter
 # Big-step semantics of the statement language  (specification side of C01)
 
 A structured, fuel-indexed "sequential reading of the program": statements execute top to bottom;
-`loop(v, e)` evaluates `e` once, does nothing when the value is `≤ 0`, otherwise opens a scope,
-binds `v := 0` and runs *body; v := v + 1* while the new value is below the bound, then closes the
-scope; `while(c)` runs its body for as long as `c` evaluates non-zero and opens no scope; `let`
+`loop(v, e)` evaluates `e` once, does nothing when the value is `≤ 0`, otherwise opens a scope and
+runs the body once for each counter value `0, 1, …` below the bound — setting `v` to that value
+before each pass, whatever the body did to `v` — then closes the scope; `while(c)` runs its body for as long as `c` evaluates non-zero and opens no scope; `let`
 binds in the innermost scope; a data row is evaluated in the environment of the moment it is
 reached, appended to the log of rows, and handed to the device (`respond`, an arbitrary function:
 it stands for everything that happens between two calls of the statement iterator — the IO of the
@@ -55,21 +55,18 @@ def execStmt : Nat → Stmt → Sys W → Option (Sys W)
       match evalE max σ.ctx with
       | .ok (n, c') =>
         if n ≤ 0 then some { σ with ctx := c' }
-        else loopIter fuel var n body { σ with ctx := c'.pushFrame.set var 0 }
+        else loopIter fuel var n body 0 { σ with ctx := c'.pushFrame.set var 0 }
       | _ => none
     | .while cond body => whileIter fuel cond body σ
-/-- one pass through the body with the counter as it stands, then the increment and the test -/
-def loopIter : Nat → String → Int64 → List Stmt → Sys W → Option (Sys W)
-  | 0, _, _, _, _ => none
-  | fuel+1, var, n, body, σ1 =>
+/-- the pass for counter value `cur` (the variable has been set to it), then the next value and the test -/
+def loopIter : Nat → String → Int64 → List Stmt → Int64 → Sys W → Option (Sys W)
+  | 0, _, _, _, _, _ => none
+  | fuel+1, var, n, body, cur, σ1 =>
     match execBlock fuel body σ1 with
     | none => none
     | some σ2 =>
-      match σ2.ctx.get var with
-      | some (.val prev) =>
-        if satSucc prev < n then loopIter fuel var n body { σ2 with ctx := σ2.ctx.set var (satSucc prev) }
-        else some { σ2 with ctx := σ2.ctx.popFrame }
-      | _ => none
+      if satSucc cur < n then loopIter fuel var n body (satSucc cur) { σ2 with ctx := σ2.ctx.set var (satSucc cur) }
+      else some { σ2 with ctx := σ2.ctx.popFrame }
 def whileIter : Nat → Expr → List Stmt → Sys W → Option (Sys W)
   | 0, _, _, _ => none
   | fuel+1, cond, body, σ1 =>
